@@ -458,6 +458,52 @@ def run(ctx):
         if len(v) >= 5 and all(isinstance(k, EnumMember) and isinstance(x, EnumMember) for k, x in v.items()) \
                 and "ph_type" in ast.unparse(node_.slice):
             table = {k.name: x.name for k, x in v.items()}
+    if table is None:
+        # the table written as a function of the type: `if t in (A, B): return X` arms (a match statement reads as that chain)
+        from sa.inline import resolve_callee as _rc135
+
+        for c_ in [x for x in ast.walk(bp.node) if isinstance(x, ast.Call) and any("ph_type" in ast.unparse(a_) for a_ in x.args)]:
+            try:
+                rc_ = _rc135(prog, bp, c_, {})
+            except Exception:  # noqa: BLE001
+                rc_ = None
+            g_ = rc_[0] if rc_ is not None and hasattr(rc_[0], "node") else None
+            if g_ is None and dotted(c_.func):
+                r_ = prog.resolve(bp.module, dotted(c_.func))
+                g_ = r_ if hasattr(r_, "node") and hasattr(r_, "module") else None
+            if g_ is None:
+                continue
+            ps_ = [a_.arg for a_ in g_.node.args.args if a_.arg not in ("self", "cls")]
+            if len(ps_) != 1:
+                continue
+            tb_, okt_ = {}, True
+
+            def arms(stmts):
+                nonlocal okt_
+                for st in stmts:
+                    if isinstance(st, ast.Expr) and isinstance(st.value, ast.Constant):
+                        continue
+                    if isinstance(st, ast.Raise):
+                        return
+                    if isinstance(st, ast.If) and isinstance(st.test, ast.Compare) and len(st.test.ops) == 1 and dotted(st.test.left) == ps_[0] \
+                            and isinstance(st.test.ops[0], (ast.In, ast.Eq, ast.Is)) and len(st.body) == 1 and isinstance(st.body[0], ast.Return):
+                        ks = prog.const(st.test.comparators[0], g_.module)
+                        ks = list(ks) if isinstance(ks, (tuple, list)) else [ks]
+                        v_ = prog.const(st.body[0].value, g_.module)
+                        if all(isinstance(k_, EnumMember) for k_ in ks) and isinstance(v_, EnumMember):
+                            for k_ in ks:
+                                tb_.setdefault(k_.name, v_.name)
+                        else:
+                            okt_ = False
+                        arms(st.orelse)
+                        if st.orelse:
+                            return
+                    else:
+                        okt_ = False
+                        return
+            arms(g_.node.body)
+            if okt_ and len(tb_) >= 5:
+                table = tb_
     MASTER = {"TITLE", "BODY", "DATE", "FOOTER", "SLIDE_NUMBER"}  # placeholder kinds of a slide master (ECMA-376 Part 1, 19.3.1.36 / 19.7.10)
     if table is None:
         ctx.error("LayoutPlaceholder._base_placeholder", "inheritance table does not fold")
